@@ -420,8 +420,18 @@ def r5b(repo, run):
         # location maps, the rewritten code units) are free symbols
         bound = {n.id for n in ast.walk(loop) if isinstance(n, ast.Name) and isinstance(n.ctx, ast.Store)}
         free = sorted({n.id for n in ast.walk(loop) if isinstance(n, ast.Name) and isinstance(n.ctx, ast.Load)} - bound - {'python_is_at_least', 'dis', 'abs', 'len', 'range', 'True', 'False', 'None'})
+        # interpreter facts computed once before the loop (`offsets_in_bytes = not python_is_at_least(3, 10)`) belong to the unit
+        pre = []
+        for st in g.node.body:
+            if st is loop or (hasattr(st, 'lineno') and st.lineno >= loop.lineno):
+                break
+            if isinstance(st, ast.Assign) and len(st.targets) == 1 and isinstance(st.targets[0], ast.Name) and st.targets[0].id in free \
+                    and all(n.id in ('python_is_at_least', 'sys', 'True', 'False') for n in ast.walk(st.value) if isinstance(n, ast.Name)) \
+                    and sum(isinstance(n, ast.Name) and isinstance(n.ctx, ast.Store) and n.id == st.targets[0].id for n in ast.walk(g.node)) == 1:
+                pre.append(st)
+        free = [n for n in free if n not in {st.targets[0].id for st in pre}]
         synth = ast.FunctionDef(name='%s__jump_loop' % g.name, args=ast.arguments(posonlyargs=[], args=[ast.arg(arg=n) for n in free], kwonlyargs=[], kw_defaults=[], defaults=[]),
-                                body=[loop], decorator_list=[], returns=None, type_comment=None)
+                                body=pre + [loop], decorator_list=[], returns=None, type_comment=None)
         ast.copy_location(synth, loop)
         synth.end_lineno = loop.end_lineno
         target = FuncInfo(synth, g.module, g.cls)
